@@ -34,7 +34,13 @@ def parse_pattern(p: str) -> ast.AST:
     if p not in _CACHE:
         q = re.sub(r'\$\*(\w+)', _MVS + r'\1', p)
         q = re.sub(r'\$(\w+)', _MV + r'\1', q)
-        tree = ast.parse(q, mode='eval').body
+        try:
+            tree = ast.parse(q, mode='eval').body
+        except SyntaxError as ex:
+            # a rule author's mistake (e.g. a statement used as an expression pattern) is an analysis error of the
+            # obligation that uses it, never a traceback of the whole check
+            from .model import AnalysisError
+            raise AnalysisError(f"pattern `{p}` is not an expression: {ex.msg}")
         _CACHE[p] = tree
     return _CACHE[p]
 
